@@ -332,7 +332,7 @@ type pureResult struct {
 
 // pureCall symbolically evaluates fn (ghost / spec code) on all paths and merges the results.
 func (m *Machine) pureCall(st *State, fn *ssa.Function, args []Value, fvals []Value) []Value {
-	sub := &State{pure: true, opaque: st.opaque, evBase: st.evBase, heap: cloneHeap(st.heap), locks: st.locks, chanQ: map[int][]chanQuery{}, chanVer: st.chanVer, definable: st.definable, defs: st.defs}
+	sub := &State{pure: true, opaque: st.opaque, evBase: st.evBase, ghostCells: st.ghostCells, guardSnaps: st.guardSnaps, heap: cloneHeap(st.heap), locks: st.locks, chanQ: map[int][]chanQuery{}, chanVer: st.chanVer, definable: st.definable, defs: st.defs}
 	sub.pc = append([]*Term{}, st.pc...)
 	sub.events = st.events
 	sub.fresh = make([]*freshObj, len(st.fresh))
@@ -707,18 +707,24 @@ func init() {
 			return m.splitValue(st, args[0].(*Str), m.strConst("/"), types.Typ[types.String])
 		},
 		"mapSnap": func(m *Machine, st *State, fr *Frame, instr ssa.Instruction, fn *ssa.Function, args []Value) Value {
+			return m.mapSnapOf(st, fn.Signature.Params().At(0).Type(), args[0].(*Term))
+		},
+		"guardSnap": func(m *Machine, st *State, fr *Frame, instr ssa.Instruction, fn *ssa.Function, args []Value) Value {
 			t := fn.Signature.Params().At(0).Type()
 			ref := args[0].(*Term)
-			name, mt := m.mapNames(t)
-			ks := m.ts.Leaves(mt.Key())[0].sort
-			pa, _ := m.mapPresent(st, t, ref)
-			ms := &MapSnap{Present: m.ctx.Select(pa, ref), Map: mt}
-			for _, l := range m.ts.Leaves(mt.Elem()) {
-				n := name + ".val." + l.path
-				a := m.heapGet(st, n, ArrSort(IntSort, ArrSort(ks, l.sort)))
-				ms.Vals = append(ms.Vals, m.ctx.Select(a, ref))
+			if st.opaque != 0 {
+				_, mt := m.mapNames(t)
+				ks := m.ts.Leaves(mt.Key())[0].sort
+				ms := &MapSnap{Present: m.ctx.App(fmt.Sprintf("calleeGuardSnap!%d.present", st.opaque), ArrSort(ks, BoolSort), ref), Map: mt}
+				for _, l := range m.ts.Leaves(mt.Elem()) {
+					ms.Vals = append(ms.Vals, m.ctx.App(fmt.Sprintf("calleeGuardSnap!%d.val.%s", st.opaque, l.path), ArrSort(ks, l.sort), ref))
+				}
+				return ms
 			}
-			return ms
+			if gs, ok := st.guardSnaps[ref.id]; ok {
+				return gs
+			}
+			return m.mapSnapOf(st, t, ref)
 		},
 		"snapHas": func(m *Machine, st *State, fr *Frame, instr ssa.Instruction, fn *ssa.Function, args []Value) Value {
 			ms := args[0].(*MapSnap)
@@ -755,6 +761,40 @@ func init() {
 				}
 			}
 			return mx
+		},
+		"forallKey": func(m *Machine, st *State, fr *Frame, instr ssa.Instruction, fn *ssa.Function, args []Value) Value {
+			c := m.ctx
+			f := args[0].(*Term)
+			cfn, ok := m.closureCode(st, f)
+			if !ok {
+				panic(unsupported("forallKey with unknown function"))
+			}
+			fv := m.closureBindings(st, f, cfn)
+			kt := cfn.Params[0].Type()
+			ks := m.ts.Leaves(kt)[0].sort
+			k := c.Bound("key", ks)
+			base := len(st.pc)
+			body := m.pureCall(st, cfn, []Value{k}, fv)[0].(*Term)
+			var side []*Term
+			kept := st.pc[:base:base]
+			for _, p := range st.pc[base:] {
+				if p.hasBound {
+					side = append(side, p)
+				} else {
+					kept = append(kept, p)
+				}
+			}
+			st.pc = kept
+			if len(side) > 0 {
+				body = c.Implies(c.And(side...), body)
+			}
+			if m.mode == ModeInt {
+				if w, signed := m.isSigned(kt); w > 0 {
+					lo, hi := intRange(w, signed)
+					body = c.Implies(c.And(c.ILe(c.IntBig(lo), k), c.ILe(k, c.IntBig(hi))), body)
+				}
+			}
+			return c.Forall([]*Term{k}, body)
 		},
 		"ghostTrue": func(m *Machine, st *State, fr *Frame, instr ssa.Instruction, fn *ssa.Function, args []Value) Value {
 			return m.ctx.T
